@@ -77,7 +77,35 @@ func c04CheckN(o *Oracle, c treeCase) (ok bool, kind, detail, resp string, culpr
 	var flat clip.Paths64
 	var nodes []tnode
 	fault := safeCall(func() {
-		if c.D {
+		// a quarter of the cases (chosen by the input, not by the random stream) go through the engine API
+		// with a tree that already holds the result of another execution: the tree must be rebuilt, not
+		// extended (round-5 seed C04)
+		dirty := (len(c.Subject)*7+len(c.Clip)*3+c.CT+c.FR)%4 == 0
+		if c.D && dirty {
+			td := clip.NewPolyTreeD()
+			var op clip.PathsD
+			e0 := clip.NewClipperD(2)
+			e0.AddPaths(clip.Paths64ToPathsD(c.Subject), clip.Subject, false)
+			e0.ExecutePolyTreeD(clip.Union, clip.NonZero, td, &op)
+			e := clip.NewClipperD(2)
+			e.AddPaths(clip.Paths64ToPathsD(c.Subject), clip.Subject, false)
+			e.AddPaths(clip.Paths64ToPathsD(c.Clip), clip.Clip, false)
+			e.ExecutePolyTreeD(clip.ClipType(c.CT), clip.FillRule(c.FR), td, &op)
+			nodes = flatten(td.PolyPathBase)
+			flat = clip.BooleanOpPaths64(clip.ClipType(c.CT), clip.ScalePathsDToPaths64(clip.Paths64ToPathsD(c.Subject), 100), clip.ScalePathsDToPaths64(clip.Paths64ToPathsD(c.Clip), 100), clip.FillRule(c.FR))
+		} else if dirty {
+			t := clip.NewPolyTree64()
+			var op clip.PathsD
+			e0 := clip.NewClipper64()
+			e0.AddPaths(c.Subject, clip.Subject, false)
+			e0.ExecutePolyTree64(clip.Union, clip.NonZero, t, &op)
+			e := clip.NewClipper64()
+			e.AddPaths(c.Subject, clip.Subject, false)
+			e.AddPaths(c.Clip, clip.Clip, false)
+			e.ExecutePolyTree64(clip.ClipType(c.CT), clip.FillRule(c.FR), t, &op)
+			nodes = flatten(t.PolyPathBase)
+			flat = clip.BooleanOpPaths64(clip.ClipType(c.CT), c.Subject, c.Clip, clip.FillRule(c.FR))
+		} else if c.D {
 			td := clip.BooleanOpPolyTreeD(clip.ClipType(c.CT), clip.Paths64ToPathsD(c.Subject), clip.Paths64ToPathsD(c.Clip), clip.FillRule(c.FR), 2)
 			nodes = flatten(td.PolyPathBase)
 			// the D tree stores scaled integer polygons: compare with the 64-bit run on the quantised input (precision 2)
@@ -408,7 +436,7 @@ func genRectRows(r *Rng) clip.Paths64 {
 
 func init() {
 	stages["c04-search"] = func(ctx *Ctx, cnt func(q, t int) int, replay string) Result {
-		col := NewCollector("C04", "search", "C01's generators biased to nested rings, touching and split polygons; BooleanOpPolyTree64 / BooleanOpPolyTreeD vs the flat result: multiset equality of polygons up to start rotation, level alternation, IsHole ⇔ negative exact area, node ⊆ parent and siblings disjoint outside the 2-band (Lean oracle); non-trivial = tree depth ≥ 2; distinct by input hash")
+		col := NewCollector("C04", "search", "C01's generators biased to nested rings, touching and split polygons; BooleanOpPolyTree64 / BooleanOpPolyTreeD (a quarter of the inputs through NewClipper64 / NewClipperD and ExecutePolyTree64 / ExecutePolyTreeD into a tree that already holds another result) vs the flat result: multiset equality of polygons up to start rotation, level alternation, IsHole ⇔ negative exact area, node ⊆ parent and siblings disjoint outside the 2-band (Lean oracle); non-trivial = tree depth ≥ 2; distinct by input hash")
 		parallelFor(ctx, cnt(40000, 400000), true, col, func(o *Oracle, i int) {
 			r := NewRng(ctx.Seed, "c04", i)
 			c := treeCase{boolCase: genBoolCase(r, ctx.Tier), D: r.Chance(0.2)}
